@@ -52,6 +52,9 @@ CHECK_DEADLOCK FALSE
 SAFETY = ("INVARIANTS TypeOK P_C14_Windows P_C14_NewStreamWindow P_C14_FrameSize P_C14_MaxStreams P_C14_StreamIds "
           "P_C14_Hpack P_C14_StreamStates P_C14_OwnWindows P_C14_Progress P_C14_NeverDropped P_C14_OwedIsEnabled\n"
           "PROPERTIES P_C14_WindowSteps")
+ACTIONS = ["Peer_Settings", "Peer_Open", "Peer_Respond", "Peer_WindowUpdate", "Peer_SendData", "Peer_Starve", "Sozu_Settings",
+           "Sozu_AckSettings", "Sozu_Goaway", "Sozu_Rst", "Sozu_SendHeaders", "Sozu_SendCont", "Sozu_SendData", "Sozu_WindowUpdate",
+           "Env_Stall"]
 LIVE = "INVARIANTS TypeOK\nPROPERTIES P_C14_BodiesComplete P_C14_PeerNeverStuck"
 
 TRACE_CFG = """SPECIFICATION TraceSpec
@@ -383,11 +386,19 @@ def run(tier, replay=None):
         rep.finish()
 
     # 1. design level
+    taken = {}
     for name, cfg in model_configs(wd, thorough):
         r = vlib.tlc("MC_H2Flow", cfg, PID, workers=workers, timeout=2400 if thorough else 400, coverage=thorough)
         rep.add_tlc(r)
+        for a, (_d, n) in r["actions"].items():
+            taken[a] = taken.get(a, 0) + n
         if r["violated"]:
             rep.violation("spec:" + r["violated"], "the specification itself violates %s (%s)" % (r["violated"], name), r["out"])
+    if thorough:
+        # vacuity: every action of the spec is taken in at least one of the bounded configurations
+        dead = [a for a in ACTIONS if taken.get(a, 0) == 0]
+        if dead:
+            raise vlib.ToolError("vacuous model runs: actions never taken in any configuration: %s" % dead)
     for name, cfg in live_configs(wd, thorough):
         r = vlib.tlc("MC_H2Flow", cfg, PID, workers=workers, timeout=2400 if thorough else 400)
         rep.add_tlc(r)
